@@ -125,7 +125,13 @@ def equal(a, b):
     if a[0] != b[0]:
         return f"result kind {a[0]} vs {b[0]}"
     if a[0] == "loaded":
-        return same(a[1], b[1])
+        # `a` came out of a fresh interpreter through pickle, which is not the identity on every value (an empty big-endian
+        # masked array comes back in native byte order): the local result takes the same trip before the two are compared
+        try:
+            local = pickle.loads(pickle.dumps(b[1]))
+        except Exception:
+            local = b[1]
+        return same(a[1], local)
     if a != b:
         for i, (x, y) in enumerate(zip(a, b)):
             if x != y:
